@@ -124,7 +124,7 @@ def gen_term(rng, T, size, vars_):
     if op == 'Suc':
         return K.Const('Suc', K.TFun(NatType, NatType))(gen_term(rng, NatType, size - 1, vars_))
     if op == 'npow':
-        return K.nat_power(T)(gen_term(rng, T, size - 1, vars_), K.Nat(rng.choice([0, 1, 2, 3])))
+        return K.nat_power(T)(gen_term(rng, T, size - 1, vars_), K.Nat(rng.choice([0, 1, 2, 3, 3, 4, 5, 6])))
     if op == 'rpow':
         return K.real_power(T)(gen_term(rng, T, size - 1, False),
                                K.Real(rng.choice([-2, -1, 0, 1, 2, Fraction(1, 2), Fraction(-1, 2)])))
@@ -268,6 +268,30 @@ def run(tier='quick', seed=0):
         for goal in cands:
             for m in ('real_norm', 'real_eval', 'real_const_eq'):
                 judge(m, goal, nat_envs if goal.get_vars() else [{}])
+
+    # targeted family 3: powers of polynomials with numeral exponents 0..8 against the product written out
+    # k times (k = e: an identity; k = e - 1, e + 1 and another exponent: not identities)
+    xr, yr = K.Var('x', RealType), K.Var('y', RealType)
+    rplus, rminus, rtimes, rpow = K.plus(RealType), K.minus(RealType), K.times(RealType), K.nat_power(RealType)
+    bases = [xr, rplus(xr, K.Real(1)), rtimes(K.Real(2), xr), rplus(xr, yr), rminus(xr, yr), rtimes(xr, yr)]
+    poly_envs = [{'x': Fraction(a), 'y': Fraction(b)} for a, b in ((2, 1), (3, -2), (-2, 5), (Fraction(1, 2), 3), (5, 7))]
+
+    def prod_k(b, k):
+        r = K.Real(1)
+        for _ in range(k):
+            r = rtimes(r, b)
+        return r
+    for b in bases:
+        for e in range(0, 9):
+            for k in (e - 1, e, e + 1):
+                if k >= 0:
+                    judge('real_norm', K.Eq(rpow(b, K.Nat(e)), prod_k(b, k)), poly_envs)
+            for e2 in (e - 1, e + 1, 2 * e):
+                if e2 >= 0 and e2 != e:
+                    judge('real_norm', K.Eq(rpow(b, K.Nat(e)), rpow(b, K.Nat(e2))), poly_envs)
+            if e >= 1:
+                judge('real_norm', K.Eq(rtimes(rpow(b, K.Nat(e - 1)), b), rpow(b, K.Nat(e))), poly_envs)
+                judge('real_norm', K.Eq(rtimes(rpow(b, K.Nat(e - 1)), b), rpow(b, K.Nat(e + 1))), poly_envs)
 
     # targeted: irrational powers against the float image of their value (Fraction ** Fraction gives a float)
     for b in (2, 3, 5, 7):
